@@ -256,12 +256,12 @@ spif_tok_dup(spif_tok_t self)
 
     ASSERT_RVAL(!SPIF_TOK_ISNULL(self), (spif_tok_t) NULL);
     tmp = spif_tok_new();
-    tmp->src = spif_str_dup(SPIF_STR(self->src));
+    tmp->src = ((SPIF_STR_ISNULL(self->src)) ? ((spif_str_t) NULL) : (spif_str_dup(SPIF_STR(self->src))));
     tmp->quote = self->quote;
     tmp->dquote = self->dquote;
     tmp->escape = self->escape;
-    tmp->tokens = SPIF_LIST_DUP(self->tokens);
-    tmp->sep = spif_str_dup(SPIF_STR(self->sep));
+    tmp->tokens = ((SPIF_LIST_ISNULL(self->tokens)) ? ((spif_list_t) NULL) : (SPIF_LIST_DUP(self->tokens)));
+    tmp->sep = ((SPIF_STR_ISNULL(self->sep)) ? ((spif_str_t) NULL) : (spif_str_dup(SPIF_STR(self->sep))));
 
     return tmp;
 }
